@@ -240,8 +240,15 @@ def execute(sc, ctx):
           got = sv.get_total_obs_num_samples(num_blocks=n, length_mode="num_blocks", **kw)
           ctx.check(got == n * spb * B, "helpers", "C20/helpers/get_total_obs_num_samples/num_blocks",
                     lambda: "%r vs %d" % (got, n * spb * B))
+          # "for the same inputs": the mode selects which length argument counts, also when both are supplied
+          got2 = sv.get_total_obs_num_samples(obs_length=float(tpb) * (n + 7.5), num_blocks=n, length_mode="num_blocks", **kw)
+          ctx.check(got2 == n * spb * B, "helpers", "C20/helpers/get_total_obs_num_samples/num_blocks_mode_with_both_lengths",
+                    lambda: "%r vs %d" % (got2, n * spb * B))
           if "dur" in op and (clip is None or x < clip + 1 - Fraction(1, 10 ** 9) * max(x, 1)):
+              got3 = sv.get_total_obs_num_samples(obs_length=obs, num_blocks=n + 3, length_mode="obs_length", **kw)
               got = sv.get_total_obs_num_samples(obs_length=obs, length_mode="obs_length", **kw)
+              ctx.check(got3 == got, "helpers", "C20/helpers/get_total_obs_num_samples/obs_length_mode_with_both_lengths",
+                        lambda: "%r with a stray num_blocks, %r without" % (got3, got))
               near = abs(x - round(x)) <= Fraction(1, 10 ** 9) * max(x, 1)
               ok = got == n * spb * B or (near and got in ((n - 1) * spb * B, (n + 1) * spb * B))
               ctx.check(ok, "helpers", "C20/helpers/get_total_obs_num_samples/obs_length",
